@@ -57,6 +57,15 @@ def sset (a : DMat K) (u v : Nat) (x : K) : DMat K :=
   let (i, j) := if v ≤ u then (u, v) else (v, u)
   a.setIfInBounds i ((a.getD i #[]).setIfInBounds j x)
 
+/-- in-place triangular sweep over the positions in `order`:
+    `for ii in order: i = idx ii; for jj = lo ii .. hi ii - 1: x(i) -= coef ii jj · x(idx jj); [x(i) /= d]` -/
+def sweep (order : List Nat) (idx : Nat → Nat) (lo hi : Nat → Nat) (coef : Nat → Nat → K)
+    (dv : Nat → Option K) (x : Array K) : Array K :=
+  order.foldl (fun (x : Array K) ii =>
+      let i := idx ii
+      let s := subFrom (vget x i) (lo ii) (hi ii) fun jj => coef ii jj * vget x (idx jj)
+      x.setIfInBounds i (match dv ii with | some d => s / d | none => s)) x
+
 end Dn
 
 namespace Chol
@@ -77,6 +86,9 @@ structure Fact (K : Type) where
   perm : Array Nat
   mat : DMat K
   nullity : Nat
+  /-- the pivot that was rejected (`pivot ≤ s_tol`), if any — recorded for the `Unambiguous`
+      hypothesis of the theorems, not used by the model -/
+  rej : Option K := none
 
 def diagAt (a : DMat K) (perm : Array Nat) (i : Nat) : K := mget a (pget perm i) (pget perm i)
 
@@ -124,32 +136,29 @@ def junk (n : Nat) (perm : Array Nat) (c : Nat) (a : DMat K) : DMat K :=
 
 /-- the column loop (`fuel = N - column`, `c` = 0-based column) -/
 def factor (n : Nat) : Nat → Nat → Array Nat → DMat K → Fact K
-  | 0, _, perm, a => ⟨perm, a, 0⟩
+  | 0, _, perm, a => ⟨perm, a, 0, none⟩
   | fuel + 1, c, perm, a =>
     let ps := pivotSearch n a perm c
     let perm' := match ps.2 with
       | some i => swapP n perm c i
       | none => perm
-    if ps.1 ≤ (sTol : K) then ⟨perm', junk n perm' c a, n - c⟩
+    if ps.1 ≤ (sTol : K) then ⟨perm', junk n perm' c a, n - c, some ps.1⟩
     else factor n fuel (c + 1) perm' (elim n perm' c ps.1 a)
 
 /-- forward substitution: `for ii = 2..N0: for jj < ii: x0(p ii) -= mat(p ii, p jj)·x0(p jj)` -/
 def fwdSub (N0 : Nat) (perm : Array Nat) (a : DMat K) (x : Array K) : Array K :=
-  (List.range' 1 (N0 - 1)).foldl (fun (x : Array K) ii =>
-      let i := pget perm ii
-      x.setIfInBounds i (subFrom (vget x i) 0 ii fun jj => sget a i (pget perm jj) * vget x (pget perm jj))) x
+  sweep (List.range' 1 (N0 - 1)) (pget perm) (fun _ => 0) (fun ii => ii)
+    (fun ii jj => sget a (pget perm ii) (pget perm jj)) (fun _ => none) x
 
 /-- `for ii = 1..N0: x0(p ii) /= mat(p ii, p ii)` -/
 def diagDiv (N0 : Nat) (perm : Array Nat) (a : DMat K) (x : Array K) : Array K :=
-  (List.range N0).foldl (fun (x : Array K) ii =>
-      let i := pget perm ii
-      x.setIfInBounds i (vget x i / mget a i i)) x
+  sweep (List.range N0) (pget perm) (fun _ => 0) (fun _ => 0)
+    (fun ii jj => sget a (pget perm ii) (pget perm jj)) (fun ii => some (mget a (pget perm ii) (pget perm ii))) x
 
 /-- backward substitution: `for ii = N0-1..1: for jj = ii+1..N0: x0(p ii) -= mat(p ii, p jj)·x0(p jj)` -/
 def backSub (N0 : Nat) (perm : Array Nat) (a : DMat K) (x : Array K) : Array K :=
-  (List.range (N0 - 1)).reverse.foldl (fun (x : Array K) ii =>
-      let i := pget perm ii
-      x.setIfInBounds i (subFrom (vget x i) (ii + 1) N0 fun jj => sget a i (pget perm jj) * vget x (pget perm jj))) x
+  sweep (List.range (N0 - 1)).reverse (pget perm) (fun ii => ii + 1) (fun _ => N0)
+    (fun ii jj => sget a (pget perm ii) (pget perm jj)) (fun _ => none) x
 
 /-- `x0 = rhs; x0(perm(i)) = 0 for i > N0;` then the three sweeps -/
 def solveX0 (n N0 : Nat) (perm : Array Nat) (a : DMat K) (rhs : Array K) : Array K :=
@@ -161,20 +170,29 @@ def solveX0 (n N0 : Nat) (perm : Array Nat) (a : DMat K) (rhs : Array K) : Array
 def residuals (m N0 : Nat) (perm : Array Nat) (A : DMat K) (b x0 : Array K) : Array K :=
   vmk m fun i => addFrom (- vget b i) 0 N0 fun jj => mget A i (pget perm jj) * vget x0 (pget perm jj)
 
-/-- one column of the `Q0` recursion (`column` 0-based, `j = perm(column)`) -/
-def q0Column (N0 : Nat) (perm : Array Nat) (a : DMat K) (Q : DMat K) (column : Nat) : DMat K :=
+/-- column `column` (0-based position, `j = perm(column)`) of the `Q0` recursion, as an in-place
+    sweep on the vector `u ↦ Q0(u, j)`: the entries at positions `> column` are known already
+    (`Q0` is a `SymMat`: `Q0(p kk, j)` was computed in column `kk`), the diagonal entry starts from
+    `1/mat(j,j)`, the entries above it from 0; for `row = column, column-1, …`:
+    `z -= mat(p row, p kk)·Q0(p kk, j)` for `kk = row+1..N0`; then the column is stored. -/
+def q0Column (n N0 : Nat) (perm : Array Nat) (a : DMat K) (Q : DMat K) (column : Nat) : DMat K :=
   let j := pget perm column
-  let zii := subFrom (Scalar.ofNat 1 / mget a j j) (column + 1) N0
-    fun kk => sget a j (pget perm kk) * sget Q (pget perm kk) j
-  let Q1 := sset Q j j zii
-  (List.range column).reverse.foldl (fun (Q : DMat K) row =>
-      let i := pget perm row
-      let zij := subFrom (0 : K) (row + 1) N0 fun kk => sget a i (pget perm kk) * sget Q (pget perm kk) j
-      sset Q i j zij) Q1
+  let invp := invPerm n perm
+  let init := vmk n fun u =>
+    if pget invp u = column then Scalar.ofNat 1 / mget a j j
+    else if column < pget invp u ∧ pget invp u < N0 then sget Q u j else 0
+  let z := sweep (List.range (column + 1)).reverse (pget perm) (fun ii => ii + 1) (fun _ => N0)
+    (fun ii jj => sget a (pget perm ii) (pget perm jj)) (fun _ => none) init
+  mmk n n fun u v =>
+    if v ≤ u then
+      (if v = j ∧ pget invp u ≤ column then vget z u
+       else if u = j ∧ pget invp v ≤ column then vget z v
+       else mget Q u v)
+    else 0
 
 /-- `Q0.set_zero(); for column = N0..1 …` -/
 def q0Mat (n N0 : Nat) (perm : Array Nat) (a : DMat K) : DMat K :=
-  (List.range N0).reverse.foldl (q0Column N0 perm a) (mmk n n fun _ _ => 0)
+  (List.range N0).reverse.foldl (q0Column n N0 perm a) (mmk n n fun _ _ => 0)
 
 /-! ### singular part: `G`, Gram–Schmidt over the regularisation list -/
 
